@@ -711,10 +711,6 @@ def corpus():
     return out
 
 
-def plain(src_lines):
-    return '\n'.join(_ws(s) for s in src_lines)
-
-
 # Texts for the statelessness family: valid and invalid scripts (str or list input)
 INVALID_SCRIPTS = [
     'a = 1 +',
